@@ -252,6 +252,32 @@ func runC13(cfg Config) {
 	for it := 0; it < cfg.N(250, 6000); it++ {
 		check(genRecords(rng, rng.Intn(12), 40), "tree")
 	}
+	// files whose content differs in length from the size the reader reported (changed after lstat; sysfs, procfs):
+	// Tar fails, or the payload element holds exactly as many bytes as its size field says
+	for it := 0; it < cfg.N(150, 3000); it++ {
+		recs := genRecords(rng, 1+rng.Intn(8), 20)
+		changed := false
+		for i := range recs {
+			if recs[i].kind == "reg" && rng.Intn(2) == 0 {
+				recs[i].sizeD = []int{-1, 1, -len(recs[i].data), 3, -2, 40}[rng.Intn(6)]
+				if len(recs[i].data)+recs[i].sizeD < 0 {
+					recs[i].sizeD = -len(recs[i].data)
+				}
+				changed = changed || recs[i].sizeD != 0
+			}
+		}
+		line := recsCase(recs)
+		enc := tarRecs(recs)
+		rep.Compare(m, line, implTar, nil)
+		rep.Count(line, changed, "tar:size-mismatch", "tar-outcome:"+map[bool]string{true: "err", false: "ok"}[enc == "err"])
+		if enc == "panic" {
+			monitor("Tar panicked on a file whose content length differs from its size", line, enc)
+		} else if enc != "err" {
+			if err := catarWellFormed(unhx(enc)); err != nil {
+				monitor("archive is not well-formed catar (a file's content length differs from its size): "+err.Error(), line, "")
+			}
+		}
+	}
 	// wide directories: every fan-out (BST shape) up to the limit
 	wide := cfg.N(130, 1200)
 	for n := 0; n <= wide; n++ {
